@@ -191,7 +191,11 @@ func (vm *VM) convertPanic(msg any) error {
 		}
 	case OpConvert:
 		if err, ok := msg.(string); ok && strings.HasPrefix(err, "reflect: cannot convert slice with length") {
-			return vm.newPanic(runtimeError("runtime error:" + err[len("reflect:"):]))
+			err = err[len("reflect:"):]
+			if !strings.Contains(err, " to pointer to array with ") {
+				err = strings.Replace(err, " to array with ", " to array or pointer to array with ", 1)
+			}
+			return vm.newPanic(runtimeError("runtime error:" + err))
 		}
 	case OpDelete, OpMapIndex, -OpMapIndex, OpMapIndexAny, -OpMapIndexAny:
 		if err, ok := msg.(runtime.Error); ok {
